@@ -628,6 +628,9 @@ LNestExpect(c) ==
 
 (* ====================================================================== nested SingleListGraders
    chain: delimiters from the outermost grader inwards; all must differ *)
+\* tail: the innermost subgrader -- "none": a StringGrader; otherwise an IntervalGrader (a SingleListGrader subclass, so its
+\* delimiter belongs to the chain) with its default delimiter ("default" = comma) or the named one
+NestedFull(chain, tail) == chain \o (IF tail = "none" THEN <<>> ELSE IF tail = "default" THEN <<"comma">> ELSE <<tail>>)
 NestedExpect(chain) == IF \A i, j \in 1..Len(chain) : i # j => chain[i] # chain[j] THEN "accept" ELSE "reject"
 
 (* ====================================================================== IntervalGrader answers
